@@ -369,7 +369,17 @@ fn check_ciphertext(
 
 fn eval_encrypt(case: &Case, acc: &mut Acc, t: &Tab, nk: u64, ls: &[usize], np: u64) {
     let c = coords(case.idx, &[4, nk, nk, 4, ls.len() as u64, np]);
-    let (e, s, r, form, len, p) = (c[0] as usize, c[1] as usize, c[2] as usize, c[3], ls[c[4] as usize], c[5]);
+    eval_encrypt_at(case, acc, t, c[0] as usize, c[1] as usize, c[2] as usize, c[3], ls[c[4] as usize], c[5]);
+}
+
+/// every message length 0..=N (interior lengths, not only block boundaries) and a few large ones, one key pair, two key forms
+fn eval_length_sweep(case: &Case, acc: &mut Acc, t: &Tab, ls: &[usize]) {
+    let c = coords(case.idx, &[4, 2, ls.len() as u64]);
+    eval_encrypt_at(case, acc, t, c[0] as usize, 3, 1, if c[1] == 0 { 0 } else { 3 }, ls[c[2] as usize], 0);
+}
+
+#[allow(clippy::too_many_arguments)]
+fn eval_encrypt_at(case: &Case, acc: &mut Acc, t: &Tab, e: usize, s: usize, r: usize, form: u64, len: usize, p: u64) {
     let s_c = form & 1 == 0;
     let r_c = form & 2 == 0;
     let message = msg(p, len);
@@ -781,6 +791,12 @@ pub fn spaces(tier: Tier) -> Vec<Space> {
     {
         let (t, ls) = (t.clone(), ls.clone());
         v.push(Space::new("self-encrypt", nk * 2 * nl * np, move |case, acc| eval_self(case, acc, &t, nk, &ls, np)));
+    }
+    {
+        let t = t.clone();
+        let mut sweep: Vec<usize> = (0..=if tier.is_thorough() { 2100 } else { 600 }).collect();
+        sweep.extend_from_slice(&[4097, 16385, 65537, 70000, (1 << 20) + 4097]);
+        v.push(Space::new("length-sweep", 4 * 2 * sweep.len() as u64, move |case, acc| eval_length_sweep(case, acc, &t, &sweep)));
     }
     let bs = Arc::new(bases(tier));
     let mut flips = vec![];
